@@ -91,7 +91,9 @@ def run(module, cfg, name, workers=16, dump=False, coverage=False, simulate=None
     cfg_path = os.path.join(wd, module + ".cfg")
     with open(cfg_path, "w") as f:
         f.write(_cfg_text(cfg))
-    cmd = ["java", "-XX:+UseParallelGC", "-Xmx" + heap, "-Xss64m",
+    jtmp = os.path.join(wd, "jtmp")          # TLC leaves an empty tlc-* directory per run in java.io.tmpdir
+    os.makedirs(jtmp, exist_ok=True)
+    cmd = ["java", "-XX:+UseParallelGC", "-Xmx" + heap, "-Xss64m", "-Djava.io.tmpdir=" + jtmp,
            "-DTLA-Library=" + SPEC, "-cp", JAR, "tlc2.TLC",
            "-workers", str(workers), "-metadir", os.path.join(wd, "meta"), "-noGenerateSpecTE",
            "-config", cfg_path]
@@ -122,6 +124,7 @@ def run(module, cfg, name, workers=16, dump=False, coverage=False, simulate=None
     except subprocess.TimeoutExpired as ex:
         subprocess.run(["pkill", "-f", "tlc2[.]TLC.*" + re.escape(wd)], check=False)
         raise TlcError("TLC timed out after %ss on %s" % (timeout, module)) from ex
+    shutil.rmtree(jtmp, ignore_errors=True)
     res.wall = time.time() - t0
     res.rc = p.returncode
     res.out = p.stdout
